@@ -28,7 +28,7 @@ CHECKS = {
  "C09": dict(
    level="fault_enumeration",
    text="Single-fault enumeration on every corpus file (738; sfnt, TTC, WOFF, dfont): every byte x {v+1, v-1, 0, 0xFF, sign flip, 0x20}, every 16-bit aligned field x {0, 1, 0x7FFF, 0x8000, 0xFFFF, v-1, v+1, len(file), len(table)}, every 32-bit aligned field x {0, 1, 0x7FFFFFFF, 0xFFFFFFFF, len(file)-1, len(file), offsets of other tables}, every prefix (truncation), every pair of directory entries swapped - over the whole file for files up to the tier's bound (thorough 8 KiB), else over the container header, table directory, the head of every table and every small table. Each faulted file goes through opentype.NewLoaders, NewFont and the whole query surface (character map, advances, origins, extents, outline/bitmap/SVG data, names, metrics, variations, ppem) and HarfbuzzShaper.Shape in several directions, in journalled worker processes under RLIMIT_AS.",
-   note="Oracle: no panic (keyed by the innermost repository frame), no hang (120 s watchdog), no stack overflow / worker death, bytes allocated per case <= min(64 MiB + 256 x len(file), 3 GiB) (runtime/metrics; also enforced while the case runs by a monitor that ends the worker). 36 fix: commits (known_findings.jsonl); one known finding: eager decoding of overlapping GSUB/GPOS/GDEF lists (allocation amplification), needs a decoding budget in the generated readers. Time proportionality is only judged by the watchdog. Coverage-guided random mutation named by the property is sampling and not part of this check.",
+   note="Oracle: no panic (keyed by the innermost repository frame), no hang (120 s watchdog), no stack overflow / worker death, bytes allocated per case <= min(64 MiB + 256 x len(file), 3 GiB) (runtime/metrics; also enforced while the case runs by a monitor that ends the worker). 37 fix: commits (known_findings.jsonl); one known finding: eager decoding of overlapping GSUB/GPOS/GDEF lists (allocation amplification), needs a decoding budget in the generated readers. Time proportionality is only judged by the watchdog. Coverage-guided random mutation named by the property is sampling and not part of this check.",
    technique="exhaustive single-fault enumeration (field values, truncation points, directory swaps) over valid files with a totality and allocation-law oracle (E4)",
    design="1/C09 and 6.6", engine="E4 fault"),
  "C17": dict(
